@@ -231,6 +231,8 @@ def scripted_schedule(sd, net, t):
     is {station: [float,...]} for the oracle.
     """
     rel = t - sd.get("t0", 0)
+    if rel < 0:  # before the scenario's origin (only reachable in time-shifted runs, C10)
+        return {}, {}
     r0 = random.Random(f"{sd['seed']}:{rel}")
     stations = {s["id"]: s for s in net["stations"]}
     if sd.get("mode") == "full":
